@@ -90,6 +90,9 @@ Definition d_zip (a : args) : list (list Z) :=
 Definition s_zip (a : args) : list (list Z) :=
   [ zrows (zip_spec (logical_mask (mask_at 1 a)) (negb (Z.eqb (cfgz 3 a) 0)) (logical (col_at 4 a))
                     (negb (Z.eqb (cfgz 4 a) 0)) (logical (col_at 7 a))) ].
+Definition d_merge (a : args) : list (list Z) :=
+  [ zrows (merge_M (mask_at 1 a) (negb (Z.eqb (cfgz 3 a) 0)) (logical (col_at 4 a))
+                   (negb (Z.eqb (cfgz 4 a) 0)) (logical (col_at 7 a))) ].
 Definition s_merge (a : args) : list (list Z) :=
   [ zrows (merge_spec (logical_mask (mask_at 1 a)) (negb (Z.eqb (cfgz 3 a) 0)) (logical (col_at 4 a))
                       (negb (Z.eqb (cfgz 4 a) 0)) (logical (col_at 7 a))) ].
@@ -182,7 +185,7 @@ Definition ops_C03 : list (string * opfun) :=
     ("c03.concat", d_concat); ("c03.concat.spec", s_concat);
     ("c03.interleave", d_interleave); ("c03.interleave.spec", s_interleave);
     ("c03.zip", d_zip); ("c03.zip.spec", s_zip);
-    ("c03.merge.spec", s_merge); ("c03.merge_n.spec", s_merge_n);
+    ("c03.merge", d_merge); ("c03.merge.spec", s_merge); ("c03.merge_n.spec", s_merge_n);
     ("c03.nullif", d_nullif); ("c03.nullif.spec", s_nullif);
     ("c03.shift", d_shift); ("c03.shift.spec", s_shift);
     ("c03.slice", d_slice); ("c03.slice.spec", s_slice);
